@@ -39,3 +39,26 @@ def canon(x, depth=4, skip=(), _seen=None):
             return f"<{type(x).__name__}>"
     _seen = _seen | {id(x)}
     return (type(x).__name__,) + tuple((k, canon(v, depth - 1, skip, _seen)) for k, v in sorted(d.items()) if k not in skip and not k.startswith("_vt_"))
+
+
+def tasks_sig(loop):
+    """Where every task of the loop currently stands: the (function, instruction offset) stack of its coroutine chain.  Part of a canonical
+    state whenever background tasks (connectors, debounced resolutions) carry progress that no attribute shows."""
+    import asyncio
+
+    out = []
+    for t in asyncio.all_tasks(loop):
+        if t.done():
+            continue
+        stack = []
+        c = t.get_coro()
+        seen = 0
+        while c is not None and seen < 12:
+            seen += 1
+            fr = getattr(c, "cr_frame", None) or getattr(c, "gi_frame", None) or getattr(c, "ag_frame", None)
+            if fr is None:
+                break
+            stack.append((getattr(c, "__qualname__", type(c).__name__), fr.f_lasti))
+            c = getattr(c, "cr_await", None) or getattr(c, "gi_yieldfrom", None) or getattr(c, "ag_await", None)
+        out.append(tuple(stack))
+    return tuple(sorted(out))
